@@ -3,7 +3,7 @@ deprecated *_old streaming helpers of exetera/core/operations.py) vs coq/Model/S
 import itertools, functools
 
 PROP, NUM = 'C19', 19
-PROPS_FILES = ['Props/C19.v', 'Props/C19_typed.v']
+PROPS_FILES = ['Props/C19.v', 'Props/C19_typed.v', 'Props/C19_flags.v']
 MODES = ['jit', 'nojit']
 MODES_THOROUGH = ['jit', 'nojit', 'bounds']
 LEVEL = 'proof'
@@ -122,8 +122,53 @@ KMAP_MAXSYM = 60        # symbols above this only with the maps that have room
 KMAPS_WIDE = ['i32', 'i64', 'i64p53', 'i64lo', 'i64w32', 'f64', 'f64big']
 
 
-def _keys(case, xs):
+# ---- key columns of DIFFERENT integer dtypes on the two sides (case['kmx'] = [left dtype, right dtype]): one strictly
+# increasing map from the key symbols to integers; a symbol may be representable on one side only.  The values are chosen
+# so that a value outside the other side's range collides, after a cast to that dtype (wrap-around at 8/16/32/64 bits,
+# sign reinterpretation), with a key that IS there: c + s * 2^w for c in (-1, 1, 2, 7), w a width of either side.
+INT_DTYPES = ['int8', 'int16', 'int32', 'int64', 'uint8', 'uint16', 'uint32', 'uint64']
+_MIX = {}
+
+
+def mix_syms(A, B):
+    """(values by symbol, symbols representable in A, symbols representable in B)"""
+    if (A, B) not in _MIX and (A in _FBITS or B in _FBITS):
+        # an integer column against a floating-point one: halves (exactly representable; a cast of the float side to the
+        # integer dtype truncates 1.5 to 1 and 7.5 to 7, which are keys of the integer side).  Values far below 2^24.
+        vals = [-1.5, -1.0, -0.5, 1.0, 1.5, 2.0, 2.5, 7.0, 7.5, 8.0]
+
+        def ok(d):
+            if d in _FBITS:
+                return list(range(len(vals)))
+            lo, hi = _dt_range(d)
+            return [k for k, v in enumerate(vals) if v == int(v) and lo <= v <= hi]
+        _MIX[(A, B)] = (vals, ok(A), ok(B))
+    if (A, B) not in _MIX:
+        (la, ha), (lb, hb) = _dt_range(A), _dt_range(B)
+        ws = sorted({int(''.join(ch for ch in d if ch.isdigit())) for d in (A, B)})
+        vals = sorted({c + s * (1 << w) for c in (-1, 1, 2, 7) for w in ws for s in (-1, 0, 1)
+                       if la <= c + s * (1 << w) <= ha or lb <= c + s * (1 << w) <= hb})
+        _MIX[(A, B)] = (vals, [k for k, v in enumerate(vals) if la <= v <= ha], [k for k, v in enumerate(vals) if lb <= v <= hb])
+    return _MIX[(A, B)]
+
+
+def _keys(case, xs, side='L'):
     """key symbols -> (ndarray, dtype name)"""
+    if case.get('kmx'):
+        A, B = case['kmx']
+        vals = mix_syms(A, B)[0]
+        kd = A if side == 'L' else B
+        ks = [vals[k] for k in xs]
+        if kd in _FBITS:
+            return _np.asarray(ks, dtype=kd), kd
+        if A in _FBITS or B in _FBITS:
+            if not all(v == int(v) for v in ks):
+                raise AssertionError('generator: key symbol not representable in ' + kd)
+            ks = [int(v) for v in ks]
+        lo, hi = _dt_range(kd)
+        if not all(lo <= v <= hi for v in ks):
+            raise AssertionError('generator: key symbol not representable in ' + kd)
+        return _np.asarray(ks, dtype=kd), kd
     km = case.get('km')
     if km is None:
         kd = case.get('kt', 'int32')
@@ -229,8 +274,8 @@ _PATCH = ['generate_ordered_map_to_left_right_unique_streamed', 'generate_ordere
 
 class _patched:
     """vary the chunk size the Session call sites hard-wire (default 1<<20) without editing the repository"""
-    def __init__(self, cs):
-        self.cs = cs
+    def __init__(self, cs, csf=None):
+        self.cs = _scal(cs, csf)
 
     def __enter__(self):
         self.orig = {n: getattr(_ops, n) for n in _PATCH}
@@ -264,6 +309,56 @@ def _arg(x, grp):
 def _exc_name(e):
     from harness.worker import exc_name
     return exc_name(e)
+
+
+# ---- the TYPE FORM of scalar arguments.  The model sees the truth value of a uniqueness hint / the integer value of a
+# chunk size or invalid marker; the real call gets that value in one of the forms a script produces: a Python bool, a
+# numpy bool (np.True_ / np.False_), the result of np.all(keys[1:] != keys[:-1]), a Python or numpy integer 0/1, a
+# 0-d boolean array.  Every one of them is == True / == False (Model/FlagForm.v: py_eq_False), none but the first IS
+# True / False.
+FLAGF = ['b', 'nb', 'all', 'i', 'ni', 'u8', 'a0']
+
+
+def _flagv(v, form, keys=None):
+    np = _np
+    v = bool(v)
+    if form == 'b':
+        return v
+    if form == 'nb':
+        return np.bool_(v)
+    if form == 'all':
+        # as a script computes the hint from the sorted key column (a numpy bool); a hint that says less than the
+        # column allows (False for a column that happens to be unique) is passed as the numpy bool of its value
+        k = np.asarray(keys if keys is not None else [])
+        c = np.all(k[1:] != k[:-1])
+        return c if bool(c) == v else np.bool_(v)
+    if form == 'i':
+        return int(v)
+    if form == 'ni':
+        return np.int64(v)
+    if form == 'u8':
+        return np.uint8(v)
+    if form == 'a0':
+        return np.asarray(v)
+    raise ValueError(form)
+
+
+def _flags(case):
+    """(left flag, right flag) of the case in their type forms (case['ff'] = [form of lu, form of ru])"""
+    ff = case.get('ff') or ['b', 'b']
+    return _flagv(case['lu'], ff[0], case['L']), _flagv(case['ru'], ff[1], case['R'])
+
+
+SCALF = {'i': int, 'ni': lambda v: _np.int64(v), 'n32': lambda v: _np.int32(v), 'np': lambda v: _np.intp(v)}
+
+
+def _scal(v, form):
+    return v if v is None else SCALF[form or 'i'](v)
+
+
+def _invv(case):
+    """the invalid marker of a kernel call: numpy int64 scalar (default) or a Python int"""
+    return int(case['inv']) if case.get('invf') == 'py' else _np.int64(case['inv'])
 
 
 # ----------------------------------------------------------------------------- run: the real code
@@ -303,7 +398,7 @@ def _run(case, op, np, ops, S):
     if op in ('klru', 'klbu'):
         f = ops.generate_ordered_map_to_left_right_unique if op == 'klru' else ops.generate_ordered_map_to_left_both_unique
         res = np.zeros(case['n'], dtype=np.int64)
-        u = f(_arr(case['L']), _arr(case['R']), res, np.int64(case['inv']))
+        u = f(_arr(case['L']), _arr(case['R']), res, _invv(case))
         return [[int(x) for x in res], 1 if u else 0]
     if op == 'kisz':
         return int(ops.ordered_inner_map_result_size(_arr(case['L']), _arr(case['R'])))
@@ -318,19 +413,19 @@ def _run(case, op, np, ops, S):
         L, R = _nfield(case['L'], 'int64'), _nfield(case['R'], 'int64')
         if case.get('dst', 'f') == 'f':
             m = _nfield(None, 'int64')
-            u = ops.generate_ordered_map_to_left_right_unique_streamed_old(L, R, m, np.int64(case['inv']), chunksize=case['cs'])
+            u = ops.generate_ordered_map_to_left_right_unique_streamed_old(L, R, m, _invv(case), chunksize=_scal(case['cs'], case.get('csf')))
             return [[int(x) for x in m.data[:]], 1 if u else 0]
         m = np.zeros(len(case['L']), dtype=np.int64)
-        u = ops.generate_ordered_map_to_left_right_unique_streamed_old(L, R, m, np.int64(case['inv']), chunksize=case['cs'])
+        u = ops.generate_ordered_map_to_left_right_unique_streamed_old(L, R, m, _invv(case), chunksize=_scal(case['cs'], case.get('csf')))
         return [[int(x) for x in m], 1 if u else 0]
     if op == 'kmvold':
         d, m = _nfield(case['data'], 'int32'), _nfield(case['map'], 'int64')
         if case.get('dst', 'f') == 'f':
             r = _nfield(None, 'int32')
-            ops.ordered_map_valid_stream_old(d, m, r, np.int64(case['inv']), chunksize=case['cs'])
+            ops.ordered_map_valid_stream_old(d, m, r, _invv(case), chunksize=_scal(case['cs'], case.get('csf')))
             return [int(x) for x in r.data[:]]
         r = np.zeros(len(case['map']), dtype=np.int32)
-        ops.ordered_map_valid_stream_old(d, m, r, np.int64(case['inv']), chunksize=case['cs'])
+        ops.ordered_map_valid_stream_old(d, m, r, _invv(case), chunksize=_scal(case['cs'], case.get('csf')))
         return [int(x) for x in r]
     if op == 'oml':
         return _run_oml(case, np, ops, S)
@@ -339,10 +434,10 @@ def _run(case, op, np, ops, S):
     if op in ('ml', 'mr', 'mi'):
         return _run_merge(case, np, ops, S)
     if op == 'gi':
-        Ta, kd = _keys(case, case['T'])
-        Fa, _ = _keys(case, case['F'])
+        Ta, kd = _keys(case, case['T'], 'R')
+        Fa, fd = _keys(case, case['F'], 'L')
         T = Ta if case['form'] == 'a' else _nfield(Ta, kd)
-        F = Fa if case['form'] == 'a' else _nfield(Fa, kd)
+        F = Fa if case['form'] == 'a' else _nfield(Fa, fd)
         if case['dest'] == 'n':
             return [int(x) for x in S.get_index(T, F)]
         if case['dest'] == 'a':
@@ -393,7 +488,7 @@ def _run_oml(case, np, ops, S):
 
     def key(role, xs):
         def make():
-            a, kd = _keys(case, xs)
+            a, kd = _keys(case, xs, role)
             return a if fa == 'a' else _nfield(a, kd, h5)
         return _reg(case, role, 0, make)
     L = key('L', case['L'])
@@ -410,11 +505,11 @@ def _run_oml(case, np, ops, S):
         mp = np.zeros(len(case['L']), dtype=np.int64)
     elif mapk == 'f':
         mp = _reg(case, 'map', 0, lambda: _nfield(None, 'int64', h5))
-    lu, ru = bool(case['lu']), bool(case['ru'])
+    lu, ru = _flags(case)
     g = lambda x: _arg(x, grp)
     seq = list if case.get('lst') else tuple            # the payload / sink collections as lists
     gt = lambda t: None if t is None else seq(g(x) for x in t)
-    with _patched(case.get('cs')):
+    with _patched(case.get('cs'), case.get('csf')):
         if case.get('swap'):
             ret = S.ordered_merge_right(g(R), g(L), left_field_sources=gt(srcs), right_field_sinks=gt(sinks),
                                         right_to_left_map=g(mp), left_unique=ru, right_unique=lu)
@@ -431,11 +526,11 @@ def _run_oml(case, np, ops, S):
 def _run_omi(case, np, ops, S):
     form = case['form']
     fa = 'a' if form in ('a', 'as') else 'f'
-    La, kd = _keys(case, case['L'])
-    Ra, _ = _keys(case, case['R'])
+    La, kd = _keys(case, case['L'], 'L')
+    Ra, rd = _keys(case, case['R'], 'R')
     h5 = bool(case.get('h5'))
     L = La if fa == 'a' else _nfield(La, kd, h5)
-    R = Ra if fa == 'a' else _nfield(Ra, kd, h5)
+    R = Ra if fa == 'a' else _nfield(Ra, rd, h5)
     ldt = case.get('ldt') or ['int32'] * len(case['lsrcs'])
     rdt = case.get('rdt') or ['int32'] * len(case['rsrcs'])
     _cols_ = (lambda t: None if t is None else [_tcol(x) for x in t]) if case.get('typed') else _cols
@@ -449,9 +544,10 @@ def _run_omi(case, np, ops, S):
     elif form == 'fs':
         lsk = tuple(_nfield(None, d, h5) for d in ldt)
         rsk = tuple(_nfield(None, d, h5) for d in rdt)
+    lu, ru = _flags(case)
     ret = S.ordered_merge_inner(L, R, left_field_sources=ls, left_field_sinks=lsk,
                                 right_field_sources=rs, right_field_sinks=rsk,
-                                left_unique=bool(case['lu']), right_unique=bool(case['ru']))
+                                left_unique=lu, right_unique=ru)
     if ret is None:
         r = None
     elif len(ret) == 2 and isinstance(ret[0], tuple):
@@ -465,11 +561,11 @@ def _run_merge(case, np, ops, S):
     """merge_left / merge_right / merge_inner; payload descriptors: list of [kind, col] with kind 'n'/'i';
        form 'a' ndarray keys and numeric payloads / 'f' fields;  wr: destination writers given"""
     op, form = case['op'], case['form']
-    La, kd = _keys(case, case['L'])
-    Ra, _ = _keys(case, case['R'])
+    La, kd = _keys(case, case['L'], 'L')
+    Ra, rd = _keys(case, case['R'], 'R')
     h5 = bool(case.get('h5'))
     L = La if form == 'a' else _nfield(La, kd, h5)
-    R = Ra if form == 'a' else _nfield(Ra, kd, h5)
+    R = Ra if form == 'a' else _nfield(Ra, rd, h5)
     typed = bool(case.get('typed'))
 
     def pdt(p):
@@ -526,6 +622,15 @@ def _enc_payloads(ps):
     return out
 
 
+_FWIRE = {'b': 0, 'nb': 10, 'all': 10, 'i': 20, 'ni': 30, 'u8': 30, 'a0': 40}
+
+
+def _wflags(case):
+    """the hints on the wire: truth value + the code of the type form (Model/FlagForm.v: flag_of_wire)"""
+    ff = case.get('ff') or ['b', 'b']
+    return [_FWIRE[ff[0]] + (1 if case['lu'] else 0), _FWIRE[ff[1]] + (1 if case['ru'] else 0)]
+
+
 def to_val(case):
     op = case['op']
     if op in ('klru', 'klbu'):
@@ -549,8 +654,8 @@ def to_val(case):
         cs = case.get('cs')
         return [12, (max(len(case['L']), len(case['R'])) + 2) if cs is None else cs, case['L'], case['R'],
                 [[DTC[d], list(c)] for d, c in zip(sdt, case['srcs'])], FORMS[case['form']],
-                [DTC[d] for d in kdt] if has_sinks else [], sinks0, MAPKS[case['mapk']], case['lu'], case['ru'],
-                1 if case.get('h5') else 0]
+                [DTC[d] for d in kdt] if has_sinks else [], sinks0, MAPKS[case['mapk']]] + _wflags(case) + \
+               [1 if case.get('h5') else 0]
     if op == 'oml':
         n = len(case['L'])
         sinks0 = [[case.get('fill', 0)] * n for _ in case['srcs']] if case['form'] == 'as' else []
@@ -558,14 +663,13 @@ def to_val(case):
         # production default 1 << 20: the model is run with a chunk size just beyond both inputs (one chunk per side,
         # as with any larger size; a unary million-element buffer per case would only cost time)
         return [6, case.get('ver', VER), (max(len(case['L']), len(case['R'])) + 2) if cs is None else cs, case['L'], case['R'], case['srcs'],
-                FORMS[case['form']], sinks0, MAPKS[case['mapk']], case['lu'], case['ru']]
+                FORMS[case['form']], sinks0, MAPKS[case['mapk']]] + _wflags(case)
     if op == 'omi':
         n = case['n']
         f = case.get('fill', 0)
         ls0 = [[f] * n for _ in case['lsrcs']] if case['form'] == 'as' else []
         rs0 = [[f] * n for _ in case['rsrcs']] if case['form'] == 'as' else []
-        return [7, case['L'], case['R'], case['lsrcs'], case['rsrcs'], FORMS[case['form']], ls0, rs0,
-                case['lu'], case['ru']]
+        return [7, case['L'], case['R'], case['lsrcs'], case['rsrcs'], FORMS[case['form']], ls0, rs0] + _wflags(case)
     if op in ('ml', 'mr', 'mi'):
         return [8, {'ml': 0, 'mr': 1, 'mi': 2}[op], case['L'], case['R'],
                 _enc_payloads(case.get('lp', [])), _enc_payloads(case.get('rp', []))]
@@ -882,7 +986,36 @@ def features(case, model):
         allv = [v for c in case.get('srcs', []) + case.get('lsrcs', []) + case.get('rsrcs', []) for v in c]
         if any(abs(v) > (1 << 53) for v in allv): f.append('payload-value-beyond-2^53')
         if any(_is_s(d) for d in dts): f.append('fixed-width-string-payload')
+    if case.get('ff'):
+        ff = case['ff']
+        f.append('flagform:lu=%s' % ff[0]); f.append('flagform:ru=%s' % ff[1])
+        if ff[0] != 'b' and not case['lu']: f.append('flag:non-bool-falsy-left-hint')
+        if ff[1] != 'b' and not case['ru']: f.append('flag:non-bool-falsy-right-hint')
+        if ff[0] != 'b' and not case['lu'] and len(set(case['L'])) < len(case['L']):
+            f.append('flag:non-bool-falsy-hint-with-duplicates-on-that-side')
+        if ff[1] != 'b' and not case['ru'] and len(set(case['R'])) < len(case['R']) and f[-1] != 'flag:non-bool-falsy-hint-with-duplicates-on-that-side':
+            f.append('flag:non-bool-falsy-hint-with-duplicates-on-that-side')
+    if case.get('csf'): f.append('chunksize-form:' + case['csf'])
+    if case.get('invf'): f.append('invalid-marker-form:' + case['invf'])
     if case.get('km'): f.append('keymap:' + case['km'])
+    if case.get('kmx'):
+        A, B = case['kmx']
+        f.append('mixed-key-dtypes'); f.append('mixed-key-dtypes:%s/%s' % (A, B))
+        vals, okA, okB = mix_syms(A, B)
+        Ls, Rs = case.get('L', case.get('F', [])), case.get('R', case.get('T', []))
+        lv, rv = {vals[k] for k in Ls}, {vals[k] for k in Rs}
+        if A in _FBITS or B in _FBITS:
+            f.append('mixed-key-dtypes:integer-against-float')
+            fr, it = (lv, rv) if A in _FBITS else (rv, lv)
+            if any(v != int(v) and int(v) in it for v in fr): f.append('float-key-truncates-to-a-key-of-the-integer-side')
+            la = ha = lb = hb = 0; wa = wb = 1; lv = rv = set()
+        else:
+            (la, ha), (lb, hb) = _dt_range(A), _dt_range(B)
+            wa, wb = ha - la + 1, hb - lb + 1
+        wrapA = lambda v: (v - la) % wa + la
+        wrapB = lambda v: (v - lb) % wb + lb
+        if any(not (la <= v <= ha) and wrapA(v) in lv for v in rv): f.append('right-key-collides-with-a-left-key-when-cast-to-the-left-dtype')
+        if any(not (lb <= v <= hb) and wrapB(v) in rv for v in lv): f.append('left-key-collides-with-a-right-key-when-cast-to-the-right-dtype')
     if case.get('grp'): f.append('h5py-group-arguments')
     if case.get('lst'): f.append('payloads-and-sinks-as-lists')
     if case.get('sp'): f.append('join:caller-supplied-spans')
@@ -1181,7 +1314,7 @@ def gen(tier, rng):
         yield {'op': 'omi', 'L': L, 'R': R, 'lu': 0, 'ru': 0, 'n': _n_inner(L, R), 'form': rng.choice(forms4),
                'lsrcs': [_src(len(L), 0)], 'rsrcs': [_src(len(R), 5)]}
     # ---- element types, key dtypes, histories of calls on one Session, aliased arguments, change-directed sizes
-    for g in (_gen_typed, _gen_hist, _gen_alias, _gen_hot, _gen_changed):
+    for g in (_gen_typed, _gen_hist, _gen_alias, _gen_flagforms, _gen_mixed_keys, _gen_hot, _gen_changed):
         for c in g(big, rng):
             yield c
 
@@ -1561,6 +1694,248 @@ def _gen_alias(big, rng):
                        'form': form, 'mapk': mapk, 'cs': cs, 'km': 'i64', 'reg': {'L': 'k', 'R': 'k', 'srcs': [None, 'k']}}
 
 
+NONSTREAM = [('a', 'n'), ('a', 'a'), ('as', 'n'), ('f', 'n'), ('fs', 'n'), ('f', 'f'), ('fs', 'a')]
+
+
+def _gen_flagforms(big, rng):
+    """the TYPE FORM of scalar arguments: truthful uniqueness hints as numpy booleans / np.all(...) results / Python and
+    numpy integers 0/1 / 0-d arrays, chunk sizes as numpy integers, invalid markers as Python ints — through every entry
+    point that takes them.  The expected value only depends on the truth value (Props/C19_flags.v)."""
+    from harness import hot
+    cnt = 0
+    allf = FLAGF
+    pairs = [(a, b) for a in allf for b in allf if (a, b) != ('b', 'b')]
+    # (1) ordered_merge_left / _right: every (left form, right form) x every argument form (streamed at 3 chunk sizes +
+    # the 7 in-memory forms) x the truthful flag values, on key pairs with runs of equal left keys / strictly increasing
+    oforms = [('fs', 'f', 1), ('fs', 'f', 2), ('fs', 'f', None)] + [(f, m, None) for f, m in NONSTREAM]
+    kps = [([0, 0, 1, 3], [0, 1, 2]), ([0, 1, 1, 1, 2, 4, 4], [1, 2, 3, 4]), ([1, 2, 3], [0, 2, 3, 5])]
+    for fl, fr in pairs:
+        for form, mapk, cs in oforms:
+            for L, R in kps:
+                for lu in ((0, 1) if _strict(L) else (0,)):
+                    for swap in ((0, 1) if big else (cnt % 2,)):
+                        cnt += 1
+                        srcs = [_src(len(R), c) for c in range(2 if cnt % 5 == 0 else 1)]
+                        yield {'op': 'oml', 'L': L, 'R': R, 'lu': lu, 'ru': 1, 'srcs': srcs, 'form': form, 'mapk': mapk, 'cs': cs,
+                               'swap': swap, 'ff': [fl, fr], 'kt': ('int32', 'int64')[cnt % 2]}
+    # (2) the exhaustive key pairs again, the flag forms rotating: one streamed call (chunk size rotating) and one
+    # in-memory form per (pair, flag value)
+    n3, k3 = (5, 4) if big else (4, 4)
+    seqs3 = list(_nondecr(n3, k3))
+    for L in seqs3:
+        for R in seqs3:
+            if not _strict(R):
+                continue
+            for lu in ((0, 1) if _strict(L) else (0,)):
+                cnt += 1
+                fl, fr = pairs[cnt % len(pairs)]
+                base = {'op': 'oml', 'L': L, 'R': R, 'lu': lu, 'ru': 1, 'srcs': [_src(len(R), 0)], 'ff': [fl, fr]}
+                cs = (list(range(1, n3 + 2)) + [None])[cnt % (n3 + 2)]
+                yield dict(base, form='fs', mapk='f', cs=cs, swap=cnt % 2, csf=(None, 'ni', None, 'np')[cnt % 4] if cs else None)
+                form, mapk = NONSTREAM[(cnt // 2) % 7]
+                yield dict(base, form=form, mapk=mapk, cs=None, swap=(cnt // 2) % 2)
+    # (3) hints the call rejects (right key not unique), in every form: the same ValueError as with Python bools
+    for fl in allf:
+        for fr in allf:
+            for lu in (0, 1):
+                cnt += 1
+                L, R = ([0, 1, 2], [1, 1, 2]) if cnt % 2 else ([0, 0, 2], [0, 2])
+                if lu and not _strict(L):
+                    L = [0, 1, 2]
+                for form, mapk, cs in (('a', 'n', None), ('fs', 'f', 2), ('fs', 'n', None)):
+                    yield {'op': 'oml', 'L': L, 'R': R, 'lu': lu, 'ru': 0, 'srcs': [_src(len(R), 0)], 'form': form, 'mapk': mapk,
+                           'cs': cs, 'swap': cnt % 2, 'ff': [fl, fr]}
+    # (4) ordered_merge_inner: every (left form, right form) x 4 argument forms x truthful flag combinations, duplicates on
+    # both sides (cartesian blocks), on one side, on none
+    ikps = [([0, 1, 1, 3], [1, 1, 2, 3]), ([0, 2, 4], [0, 1, 1, 2, 2]), ([1, 1, 2], [1, 2]), ([0, 2, 4], [0, 1, 2, 4])]
+    for fl, fr in pairs:
+        for form in ('a', 'as', 'f', 'fs'):
+            for L, R in ikps:
+                for lu in ((0, 1) if _strict(L) else (0,)):
+                    for ru in ((0, 1) if _strict(R) else (0,)):
+                        cnt += 1
+                        yield {'op': 'omi', 'L': L, 'R': R, 'lu': lu, 'ru': ru, 'n': _n_inner(L, R), 'form': form, 'ff': [fl, fr],
+                               'lsrcs': [_src(len(L), c) for c in range(2 if cnt % 4 == 0 else 1)], 'rsrcs': [_src(len(R), 5)]}
+    seqs4 = list(_nondecr(5 if big else 4, 3))
+    for L in seqs4:
+        for R in seqs4:
+            for lu in ((0, 1) if _strict(L) else (0,)):
+                for ru in ((0, 1) if _strict(R) else (0,)):
+                    cnt += 1
+                    fl, fr = pairs[cnt % len(pairs)]
+                    yield {'op': 'omi', 'L': L, 'R': R, 'lu': lu, 'ru': ru, 'n': _n_inner(L, R), 'form': ['a', 'as', 'f', 'fs'][cnt % 4],
+                           'ff': [fl, fr], 'lsrcs': [_src(len(L), 0)], 'rsrcs': [_src(len(R), 5)]}
+    # (5) typed payloads, HDF5-backed fields, h5py.Group arguments, key dtypes; histories: the same call with numpy flags
+    # and then with Python flags (and the other way round) on shared argument objects
+    for d in (DTYPES if big else ('int8', 'int64', 'uint64', 'float64', 'bool', 'S3')):
+        for form, mapk, cs in TFORMS:
+            cnt += 1
+            fl, fr = pairs[(7 * cnt) % len(pairs)]
+            L, R = KP[cnt % len(KP)]
+            lu = cnt % 2 if _strict(L) else 0
+            kw = {}
+            if form in ('f', 'fs') and cnt % 3 == 0:
+                kw['h5'] = 1
+                if cnt % 2 == 0:
+                    kw['grp'] = 1
+            if cnt % 4 == 0:
+                kw['km'] = list(KMAPS)[cnt % len(KMAPS)]
+            c = _toml(L, R, [d, 'int64'], form, mapk, cs, lu=lu, swap=cnt % 2, ff=[fl, fr], **kw)
+            yield c
+            if cnt % 2:
+                c0 = dict(c, reg={'L': 'kL', 'R': 'kR', 'srcs': ['p0', 'p1']})
+                c1 = dict(c0); del c1['ff']
+                yield {'op': 'hist', 'calls': [c0, c1] if cnt % 4 == 1 else [c1, c0]}
+        for k, (L, R) in enumerate(ikps):
+            cnt += 1
+            fl, fr = pairs[(5 * cnt) % len(pairs)]
+            d2 = DTYPES[(DTYPES.index(d) + 5) % len(DTYPES)]
+            yield {'op': 'omi', 'typed': 1, 'L': L, 'R': R, 'lu': 0, 'ru': 1 if _strict(R) and cnt % 2 else 0, 'n': _n_inner(L, R),
+                   'form': ['a', 'as', 'f', 'fs'][cnt % 4], 'ldt': [d, d2], 'rdt': [d2], 'ff': [fl, fr], 'h5': 1 if cnt % 3 == 0 else 0,
+                   'lsrcs': [_tsrc(len(L), d), _tsrc(len(L), d2, 4)], 'rsrcs': [_tsrc(len(R), d2, 1)]}
+    # (6) chunk sizes as numpy integers (the wrapped chunksize= defaults and ops.DEFAULT_CHUNKSIZE), streamed form and the
+    # deprecated helpers; invalid markers of the kernels as Python ints
+    for csf in ('ni', 'n32', 'np'):
+        for L, R in KP:
+            for cs in (1, 2, 3, 5):
+                cnt += 1
+                yield dict({'op': 'oml', 'L': L, 'R': R, 'lu': cnt % 2 if _strict(L) else 0, 'ru': 1, 'srcs': [_src(len(R), 0)],
+                            'form': 'fs', 'mapk': 'f', 'cs': cs, 'swap': cnt % 2, 'csf': csf},
+                           **({'ff': list(pairs[cnt % len(pairs)])} if cnt % 2 else {}))
+                yield _toml(L, R, [DTYPES[cnt % len(DTYPES)], 'float64'], 'fs', 'f', cs, csf=csf, h5=cnt % 2)
+    seqs2 = list(_nondecr(3, 3))
+    for L in seqs2:
+        for R in seqs2:
+            cnt += 1
+            if _strict(R):
+                yield {'op': 'klru', 'L': L, 'R': R, 'n': len(L), 'inv': (INV64, -1)[cnt % 2], 'invf': 'py'}
+                if _strict(L):
+                    yield {'op': 'klbu', 'L': L, 'R': R, 'n': len(L), 'inv': (INV64, -1)[cnt % 2], 'invf': 'py'}
+                yield {'op': 'ksold', 'L': L, 'R': R, 'cs': 1 + cnt % 3, 'inv': INV64, 'dst': 'fa'[cnt % 2],
+                       'csf': ('ni', 'n32', 'np')[cnt % 3], 'invf': ('py', None)[cnt % 2]}
+    for nm in range(0, 4):
+        for mp in itertools.product([0, 1, 2, None], repeat=nm):
+            vs = [x for x in mp if x is not None]
+            if any(a > b for a, b in zip(vs, vs[1:])):
+                continue
+            cnt += 1
+            yield {'op': 'kmvold', 'data': [10, 20, 30], 'map': [INV64 if x is None else x for x in mp], 'cs': 1 + cnt % 3,
+                   'inv': INV64, 'dst': 'fa'[cnt % 2], 'csf': ('ni', 'n32', 'np')[cnt % 3], 'invf': ('py', None)[(cnt // 3) % 2]}
+    # (7) change-directed: a changed source file buys random longer cases with random scalar forms
+    if hot.changed():
+        for _ in range(3000 if big else 800):
+            cs = rng.choice([1, 2, 3, 4, 5, 8, None])
+            key, L, R = 0, [], []
+            tl, tr = rng.randint(0, 16), rng.randint(0, 16)
+            while len(L) < tl:
+                key += rng.choice([1, 1, 2])
+                L.extend([key] * rng.choice([1, 1, 1, 2, 3]))
+            ff = [rng.choice(allf), rng.choice(allf)]
+            if rng.random() < 0.5:
+                key = 0
+                while len(R) < tr:
+                    key += rng.choice([1, 1, 2]); R.append(key)
+                form, mapk, cs_ = rng.choice(TFORMS)
+                yield _toml(L, R, [rng.choice(DTYPES) for _ in range(rng.choice([1, 2, 3]))], form, mapk,
+                            cs if (form, mapk) == ('fs', 'f') else None, lu=1 if _strict(L) and rng.random() < 0.5 else 0,
+                            swap=rng.randint(0, 1), ff=ff, csf=rng.choice([None, 'ni', 'np']))
+            else:
+                R = sorted(rng.randint(0, 12) for _ in range(tr))
+                yield {'op': 'omi', 'L': L, 'R': R, 'lu': 1 if _strict(L) and rng.random() < 0.5 else 0,
+                       'ru': 1 if _strict(R) and rng.random() < 0.5 else 0, 'n': _n_inner(L, R), 'form': rng.choice(['a', 'as', 'f', 'fs']),
+                       'ff': ff, 'lsrcs': [_src(len(L), 0)], 'rsrcs': [_src(len(R), 5)]}
+
+
+MIX_QUICK = [('int32', 'int64'), ('int64', 'int32'), ('int8', 'uint8'), ('uint8', 'int8'), ('int64', 'uint64'), ('uint16', 'int64'),
+             ('int16', 'int8'), ('uint32', 'int32'), ('int32', 'float64'), ('float64', 'int64')]
+MIX_MORE = [('uint64', 'int64'), ('int64', 'uint16'), ('int8', 'int16'), ('int32', 'uint32'), ('uint8', 'int64'), ('int16', 'int32'),
+            ('uint32', 'uint64'), ('int64', 'int8'), ('uint8', 'float32'), ('float32', 'int16')]
+
+
+def _mix_pairs(big):
+    from harness import hot
+    if big:
+        return [(a, b) for a in INT_DTYPES for b in INT_DTYPES if a != b] + \
+               [p for d in ('int8', 'int32', 'int64', 'uint16', 'uint64') for fl in ('float32', 'float64') for p in ((d, fl), (fl, d))]
+    return MIX_QUICK + (MIX_MORE if hot.changed() else [])      # one numba specialisation of every kernel per pair: a sample
+
+
+def _dups(xs, which):
+    """xs with the symbols at the positions `which` doubled"""
+    out = []
+    for i, x in enumerate(xs):
+        out.extend([x, x] if i in which else [x])
+    return out
+
+
+def _gen_mixed_keys(big, rng):
+    """the two key columns have DIFFERENT integer dtypes (width and / or signedness) and hold values that are outside the
+    other side's range and collide, under a cast to the other dtype, with a key that is there: every entry point, every
+    argument form.  The model joins the key symbols (mathematical integers)."""
+    cnt = 0
+    oforms = [('fs', 'f', 1), ('fs', 'f', 3), ('fs', 'f', None)] + [(f, m, None) for f, m in NONSTREAM]
+    for A, B in _mix_pairs(big):
+        vals, okA, okB = mix_syms(A, B)
+        onlyA = [k for k in okA if k not in okB]
+        onlyB = [k for k in okB if k not in okA]
+        both = [k for k in okA if k in okB]
+        # left key: all its symbols, runs of equal keys at the ends / in the middle; right key (unique): all its symbols,
+        # or only those the left dtype cannot hold (nothing may match) plus one common key
+        lefts = [okA, _dups(okA, (0, len(okA) - 1)), _dups(okA, (1, 2)), both[:1] + onlyA, _dups(both, (0, 1, 2, 3))]
+        rights = [okB, sorted(onlyB + both[-1:]), sorted(onlyB + both[:1]), both, onlyB]
+        kps = []
+        for L in lefts:
+            for R in rights:
+                if (L, R) not in kps and (L or R):
+                    kps.append((L, R))
+        for pi, (L, R) in enumerate(kps):
+            for fi, (form, mapk, cs) in enumerate(oforms):
+                if not big and (pi + fi) % 2:
+                    continue
+                cnt += 1
+                yield {'op': 'oml', 'L': L, 'R': R, 'lu': (cnt % 2 if _strict(L) else 0), 'ru': 1,
+                       'srcs': [_src(len(R), c) for c in range(2 if cnt % 5 == 0 else 1)], 'form': form, 'mapk': mapk, 'cs': cs,
+                       'swap': (cnt // 2) % 2, 'kmx': [A, B], 'h5': 1 if form in ('f', 'fs') and cnt % 7 == 0 else 0}
+        # ordered_merge_inner: duplicates on either side, all four argument forms
+        rdups = [okB, _dups(okB, (0, len(okB) - 1)), _dups(sorted(onlyB + both[:2]), (0, 1)), onlyB]
+        for pi, L in enumerate(lefts):
+            for ri, R in enumerate(rdups):
+                for fi, form in enumerate(('a', 'as', 'f', 'fs')):
+                    if not big and (pi + ri + fi) % 2:
+                        continue
+                    cnt += 1
+                    lu = 1 if _strict(L) and cnt % 2 else 0
+                    ru = 1 if _strict(R) and (cnt // 2) % 2 else 0
+                    yield {'op': 'omi', 'L': L, 'R': R, 'lu': lu, 'ru': ru, 'n': _n_inner(L, R), 'form': form, 'kmx': [A, B],
+                           'lsrcs': [_src(len(L), 0)], 'rsrcs': [_src(len(R), 5)]}
+        # merge_left / merge_right / merge_inner (keys in any order) and get_index
+        for v in range(3 if big else 2):
+            Lu = [rng.choice(okA) for _ in range(rng.randint(3, 7))] + (onlyA[:1] + both[:1])
+            Ru = [rng.choice(okB) for _ in range(rng.randint(3, 7))] + (onlyB[:2] + both[:1])
+            rng.shuffle(Lu); rng.shuffle(Ru)
+            if v == 0:
+                Lu, Ru = sorted(Lu), sorted(Ru)
+            for op in ('ml', 'mr', 'mi'):
+                for form in 'af':
+                    cnt += 1
+                    yield {'op': op, 'L': Lu, 'R': Ru, 'form': form, 'wr': cnt % 2, 'kmx': [A, B],
+                           'lp': [['n', _src(len(Lu), 0)]], 'rp': [['n', _src(len(Ru), 5)]]}
+            yield {'op': 'gi', 'T': Ru, 'F': Lu, 'form': 'af'[v % 2], 'dest': 'naf'[v % 3], 'kmx': [A, B]}
+        # random sorted columns over the symbols of each side
+        for _ in range(40 if big else 12):
+            cnt += 1
+            L = sorted(rng.choice(okA) for _ in range(rng.randint(0, 9)))
+            R = sorted(set(rng.choice(okB) for _ in range(rng.randint(0, 9))))
+            form, mapk, cs = rng.choice(oforms)
+            if cs is not None:
+                cs = rng.randint(1, 4)
+            yield {'op': 'oml', 'L': L, 'R': R, 'lu': 1 if _strict(L) and rng.random() < 0.5 else 0, 'ru': 1, 'srcs': [_src(len(R), 0)],
+                   'form': form, 'mapk': mapk, 'cs': cs, 'swap': rng.randint(0, 1), 'kmx': [A, B]}
+            R2 = sorted(rng.choice(okB) for _ in range(rng.randint(0, 9)))
+            yield {'op': 'omi', 'L': L, 'R': R2, 'lu': 0, 'ru': 0, 'n': _n_inner(L, R2), 'form': rng.choice(['a', 'as', 'f', 'fs']),
+                   'kmx': [A, B], 'lsrcs': [_src(len(L), 0)], 'rsrcs': [_src(len(R2), 5)]}
+
+
 def _gen_hot(big, rng):
     """change-directed: a small integer literal that is new in the tree under test (harness/hot.py) is used as chunk size,
     column length, run length and number of payloads"""
@@ -1655,6 +2030,17 @@ def shrink(case):
         if len(calls) == 1:
             yield calls[0]
         return
+    for k in ('csf', 'invf'):
+        if case.get(k):
+            c = dict(case); del c[k]; yield c
+    if case.get('ff'):
+        ff = case['ff']
+        c = dict(case); del c['ff']; yield c                     # both flags as Python bools
+        for i in (0, 1):
+            if ff[i] != 'b':
+                yield dict(case, ff=[('b' if j == i else ff[j]) for j in (0, 1)])
+            elif ff[1 - i] not in ('b', 'nb'):
+                yield dict(case, ff=[('nb' if j != i else ff[j]) for j in (0, 1)])
     if case.get('typed') and case['op'] == 'oml' and len(case['srcs']) > 1:
         for i in range(len(case['srcs'])):
             c = dict(case)
@@ -1714,6 +2100,24 @@ def warmup():
         for lu in (0, 1):
             for form, mapk, cs in (('a', 'n', None), ('fs', 'f', 2)):
                 cases.append(_toml([1, 2], [2, 3], ['int32'], form, mapk, cs, km=km, lu=lu))
+    # one specialisation of the key kernels per PAIR of key dtypes (the quick tier's sample)
+    for A, B in MIX_QUICK:
+        vals, okA, okB = mix_syms(A, B)
+        for lu in (0, 1):
+            for form, mapk, cs in (('a', 'n', None), ('fs', 'f', 2)):
+                cases.append({'op': 'oml', 'L': okA[:2], 'R': okB[:2], 'lu': lu, 'ru': 1, 'srcs': [[5, 6]], 'form': form, 'mapk': mapk,
+                              'cs': cs, 'kmx': [A, B]})
+            for ru in (0, 1):
+                cases.append({'op': 'omi', 'L': okA[:2], 'R': okB[:2], 'lu': lu, 'ru': ru, 'n': _n_inner(okA[:2], okB[:2]), 'form': 'a',
+                              'lsrcs': [[5, 6]], 'rsrcs': [[7, 8]], 'kmx': [A, B]})
+    # numpy-integer chunk sizes (np.int32 is another numba argument type than int) and Python-int invalid markers
+    for csf in ('ni', 'n32'):
+        for lu in (0, 1):
+            cases.append(_toml([1, 2], [2, 3], ['int32'], 'fs', 'f', 2, lu=lu, csf=csf))
+        cases.append({'op': 'ksold', 'L': [1, 2], 'R': [2], 'cs': 1, 'inv': INV64, 'csf': csf, 'invf': 'py'})
+        cases.append({'op': 'kmvold', 'data': [1, 2], 'map': [0, 1], 'cs': 1, 'inv': INV64, 'csf': csf, 'invf': 'py'})
+    cases.append({'op': 'klru', 'L': [1, 2], 'R': [2], 'n': 2, 'inv': INV64, 'invf': 'py'})
+    cases.append({'op': 'klbu', 'L': [1, 2], 'R': [2], 'n': 2, 'inv': -1, 'invf': 'py'})
     for c in cases:
         try:
             run(c)
@@ -1750,11 +2154,25 @@ RULE = ('exhaustive over order-types: every pair of non-decreasing key sequences
         'positions, left key = right key. h5py.Group arguments. Indexed-string payloads with multi-byte characters and '
         'entries of 255/256/257+ bytes. ops.DEFAULT_CHUNKSIZE is set to the case\'s chunk size together with the wrapped '
         'chunksize defaults. CHANGE-DIRECTED: small integer literals new in the tree under test become chunk sizes, column '
-        'lengths, run lengths and payload counts; a changed source file adds 1500 (thorough 6000) random typed cases.')
+        'lengths, run lengths and payload counts; a changed source file adds 1500 (thorough 6000) random typed cases. '
+        'SCALAR TYPE FORMS: the (truthful) uniqueness hints as Python bool / numpy bool / np.all(...) result / Python int / '
+        'numpy int64 / numpy uint8 / 0-d boolean array — every ordered pair of (left form, right form) x the 10 argument forms '
+        'of ordered_merge_left/right (streamed at chunk sizes 1, 2, default + 7 in-memory) and x the 4 forms of '
+        'ordered_merge_inner x truthful flag values on key pairs with duplicates, the forms rotating over the exhaustive key '
+        'pairs (length <= 4), rejected hints in every form, typed / HDF5 / h5py.Group / history variants; chunk sizes as '
+        'np.int64 / np.int32 / np.intp; invalid markers of the kernels as Python ints. MIXED KEY DTYPES: the two key columns in '
+        'different integer dtypes (quick: 8 ordered pairs, 16 when a source changed; thorough: all 56) holding values outside '
+        'the other side\'s range that collide with a key there under a cast (c + s*2^w, c in {-1,1,2,7}: wrap-around at '
+        '8/16/32/64 bits, sign reinterpretation) through ordered_merge_left/right (10 forms), ordered_merge_inner (4 forms), '
+        'merge_left/right/inner and get_index; an integer key column against a float32/float64 one holding halves (a cast '
+        'to the integer dtype truncates 1.5 to the key 1) in the same forms (quick 2 pairs, thorough 20).')
 EXHAUSTIVE = {'quick': True, 'thorough': True}
 TRUSTED = ['numba code generation; numpy fancy indexing / boolean masks; MemoryField write / write_part (modelled as append)',
            'key columns: the model joins the key SYMBOLS, the real call their image under a strictly increasing map into the key '
-           'dtype (the kernels only compare keys); payload values are integers / IEEE bit patterns on both sides',
+           'dtype (the kernels only compare keys); payload values are integers / IEEE bit patterns on both sides; with mixed '
+           'key dtypes the two sides are images of ONE strictly increasing map into the integers, each stored in its own dtype',
+           'the type form of a hint (numpy bool, integer ...) is modelled by Model/FlagForm.v (py_eq_False / py_is_False as '
+           'Python and numpy define == and `is` on these objects); the model entry receives the form on the wire',
            'pandas.merge(how=left) = rows of the relational left join in order, pandas.merge(how=inner) = some permutation of '
            'the matching pairs — explicit premises of the merge_* theorems, exercised here on every generated key pair',
            'Python dict semantics in get_index (modelled as an association list, newest binding first)',
@@ -1765,13 +2183,20 @@ ASSUMPTIONS = ['ordered_* forms: keys sorted ascending, uniqueness flags truthfu
                'a sink has the dtype of its source, or is an integer sink wide enough for every value of an integer/bool source '
                '(conversions from/to floating point and narrowing are not modelled and not generated); ndarray sinks have the '
                'source dtype (numba cannot compile map_valid for two different array types: observation O-C19f)',
-               'key columns of both sides have the same dtype; float keys are not NaN',
+               'key columns of both sides have the same dtype, two different integer dtypes, or an integer and a floating-point '
+               'dtype with values the float dtype represents exactly (halves below 2^24; what equality of an int64 and a float64 '
+               'beyond 2^53 means is not stated, not generated); float keys are not NaN',
+               'uniqueness hints are values that are == True or == False (bool, numpy bool, 0/1 integers, 0-d boolean array); '
+               'None, strings and other objects are not generated',
                'ndarray destination arrays are zero-initialised by the caller',
                'streamed form: no run of equal left keys as long as the chunk size (2^20 in production) — otherwise the documented ValueError',
                'fewer than 2^62 rows (INVALID_INDEX is not a row number); payload columns have the length of their key column']
 TECHNIQUE = ('Coq proof (faithful model of the kernels, Session plumbing and — reused from C03/C04 — the streamed generators '
              '= relational join + payload mapping) + exhaustive small-scope differential correspondence against the repository')
-LEVEL_TEXT = ('6 theorems in coq/Props/C19_typed.v about coq/Model/SessionMergeTyped.v (element types: every payload of a '
+LEVEL_TEXT = ('9 theorems in coq/Props/C19_flags.v about coq/Model/FlagForm.v (the type form of the uniqueness hints: a hint compared '
+              'by value is its truth value in every form, so ordered_merge_left/right/inner with numpy-bool / integer hints ARE the '
+              'calls with Python bools; the identity test `is False` is refuted — F-C19g, ordered_merge_inner as found); '
+              '6 theorems in coq/Props/C19_typed.v about coq/Model/SessionMergeTyped.v (element types: every payload of a '
               'call is mapped on its own, in the dtype its argument form prescribes, whatever the other payloads, sinks and '
               'earlier calls: ordered_merge_left_typed_inmemory_correct / _streamed_correct / _payloads_independent, '
               'session_history_call_alone) and '
@@ -1785,4 +2210,5 @@ LEVEL_TEXT = ('6 theorems in coq/Props/C19_typed.v about coq/Model/SessionMergeT
               'the real Session methods and kernels (~6.5e4 cases per quick run, 2 modes).')
 LEVEL_NOTE = ('Trusted: Coq kernel, extraction, harness, numba/numpy/pandas. pandas.merge is a Section hypothesis. '
               'Session.ordered_merge_left is modelled as repaired by work/C19/fix-F-C19a.diff and fix-F-C19c.diff; the '
-              'deprecated *_old helpers are modelled as found (defective, no longer called by Session).')
+              'deprecated *_old helpers are modelled as found (defective, no longer called by Session). '
+              'Session.ordered_merge_inner is modelled as repaired by work/TC19/fix-F-C19g.diff (hints compared by value).')
